@@ -23,6 +23,16 @@ DEFAULT_BASE = 'ObjectType std::Object'
 
 
 # ---------------------------------------------------------------- structure
+def _val(v):
+    """the VALUE part of a dump entry `[value, explicitly_set]` (the flag alone is not a difference: an explicitly
+    stored value equal to the effective inherited/default value is not observable and delta_schemas ignores it)"""
+    return v[0] if isinstance(v, list) and len(v) == 2 and (v[1] is None or isinstance(v[1], bool)) else v
+
+
+def value_dump(d: dict) -> dict:
+    return {k: {fn: _val(v) for fn, v in flds.items()} for k, flds in d.items()}
+
+
 def struct_diff(d1: dict, d2: dict) -> dict:
     """{key: '+' (only in d2 = missing from the result) | '-' (only in d1) | set(differing fields)}"""
     out = {}
@@ -32,7 +42,7 @@ def struct_diff(d1: dict, d2: dict) -> dict:
         elif k not in d2:
             out[k] = '-'
         else:
-            f = {fn for fn in set(d1[k]) | set(d2[k]) if d1[k].get(fn) != d2[k].get(fn)}
+            f = {fn for fn in set(d1[k]) | set(d2[k]) if _val(d1[k].get(fn)) != _val(d2[k].get(fn))}
             if f:
                 out[k] = f
     return out
@@ -168,6 +178,7 @@ class Case:
         self.sdiff = struct_diff(dr, db)
         self.oa, self.ob, self.or_ = objmap(sc, a), objmap(sc, b), objmap(sc, r)
         self._ast = None
+        self._resets = {}
 
     def obj(self, key):
         """(schema, object) for a dump key, preferring the target"""
@@ -189,6 +200,10 @@ class Case:
                         for c in stmt.commands:
                             if isinstance(c, (qlast.AlterConcreteLink, qlast.AlterConcreteProperty)):
                                 res.add((tn, c.name.name))
+                                for sub in c.commands:
+                                    if isinstance(sub, qlast.SetField):
+                                        self._resets.setdefault((tn, c.name.name), set()).add(
+                                            (sub.name, sub.value is None))
             except Exception:
                 pass
             self._ast = res
@@ -236,11 +251,48 @@ def c_bases(cs: Case):
     return out
 
 
-def c_computed_to_stored(cs: Case):
-    """computed-to-stored-descendant: the differing pointer inherits (pointer ancestors, in the target) from a
-    pointer that was computed in the old schema and is stored in the target; only its computed_fields /
-    inherited_fields bookkeeping differs."""
+def _ptr_desc_keys(cs: Case, p, allowed):
+    """differing keys of pointers that inherit (in the target or the result) from pointer `p` and differ only in `allowed`"""
     out = set()
+    name = cs.sc._objname(cs.b, p)
+    for k2, f2 in cs.sdiff.items():
+        if k2.split(' ')[0] not in ('Property', 'Link') or not isinstance(f2, set) or not f2 <= allowed:
+            continue
+        for sch, om in ((cs.b, cs.ob), (cs.r, cs.or_)):
+            o2 = om.get(k2)
+            if o2 is not None and any(cs.sc._objname(sch, x) == name for x in o2.get_ancestors(sch).objects(sch)):
+                out.add(k2)
+    return out
+
+
+def c_owned(cs: Case):
+    """owned-after-explicit-alter-of-inherited-pointer: an inherited pointer D.n that is NOT owned in the target (nor
+    in the old schema, unless the name now denotes another object) ends up owned=True, and the script contains an explicit `ALTER TYPE D { ALTER LINK|PROPERTY
+    n {…} }` (confirmed on the script AST): applying an ALTER to an inherited pointer makes it owned.  The
+    inherited pointers below it may then differ in the inherited bookkeeping only."""
+    out = set()
+    alters = cs.script_alters()
+    for key, f in cs.sdiff.items():
+        if not isinstance(f, set) or 'owned' not in f or key.split(' ')[0] not in ('Property', 'Link'):
+            continue
+        if key not in cs.ob or not f <= {'owned', 'required', 'inherited_fields'}:
+            continue
+        if _val(cs.dr[key]['owned']) is not True or _val(cs.db[key]['owned']) is not False:
+            continue
+        p = cs.ob[key]
+        D = p.get_source(cs.b)
+        if D is None or (str(D.get_name(cs.b)), str(p.get_shortname(cs.b).name)) not in alters:
+            continue
+        out.add(key)
+        out |= _ptr_desc_keys(cs, p, {'inherited_fields', 'required', 'owned'})
+    return {'owned-after-explicit-alter-of-inherited-pointer': out} if out else {}
+
+
+def c_computed_status(cs: Case):
+    """computed-to-stored-descendant / stored-to-computed-descendant: the differing pointer inherits (pointer ancestors,
+    in the target) from a pointer whose computed status changed in this step; only its computed_fields /
+    inherited_fields bookkeeping differs."""
+    out = {}
     for key, f in cs.sdiff.items():
         if not isinstance(f, set) or not f <= {'computed_fields', 'inherited_fields'}:
             continue
@@ -249,52 +301,164 @@ def c_computed_to_stored(cs: Case):
         p = cs.ob[key]
         for anc in p.get_ancestors(cs.b).objects(cs.b):
             k2 = cs.sc._objname(cs.b, anc)
-            if k2 in cs.oa and cs.oa[k2].get_expr(cs.a) is not None and anc.get_expr(cs.b) is None:
-                out.add(key)
+            if k2 not in cs.oa:
+                continue
+            ea, eb = cs.oa[k2].get_expr(cs.a), anc.get_expr(cs.b)
+            if ea is not None and eb is None:
+                out.setdefault('computed-to-stored-descendant', set()).add(key)
                 break
-    return {'computed-to-stored-descendant': out} if out else {}
+            if ea is None and eb is not None:
+                out.setdefault('stored-to-computed-descendant', set()).add(key)
+                break
+    return out
 
 
-def c_owned(cs: Case):
-    """owned-after-ancestor-pointer-swap: an inherited, non-owned pointer D.n ends up owned because the script
-    ALTERs it explicitly, while in an ancestor T of D the step swaps pointer n with another pointer n2
-    (their `required` flags are exchanged) and the script alters both T.n and T.n2."""
-    from edb.schema import name as sn
+def c_abstract_base_kept(cs: Case):
+    """pointer-keeps-abstract-base-after-drop-base: an overloaded pointer D.n whose only connection to an abstract
+    pointer X was through the pointer of a parent type; the step drops that parent from D's bases and the pointer
+    keeps X among its bases (target: std::property / std::link)."""
     out = set()
-    alters = cs.script_alters()
     for key, f in cs.sdiff.items():
-        if f != {'owned'} or key.split(' ')[0] not in ('Property', 'Link') or key not in cs.ob:
+        if key.split(' ')[0] not in ('Property', 'Link') or not isinstance(f, set) or 'bases' not in f:
             continue
-        if cs.dr[key]['owned'][0] is not True or cs.db[key]['owned'][0] is not False:
+        if not f <= {'bases', 'ancestors'} or key not in cs.ob or key not in cs.oa:
+            continue
+        rb, bb = _names(cs.dr, key, 'bases'), _names(cs.db, key, 'bases')
+        extras = [x for x in rb if x not in bb]
+        if not extras:
             continue
         p = cs.ob[key]
         D = p.get_source(cs.b)
-        if D is None:
+        Da = cs.a.get(D.get_name(cs.b), default=None) if D is not None else None
+        if Da is None:
             continue
-        n = str(p.get_shortname(cs.b).name)
-        if (str(D.get_name(cs.b)), n) not in alters:
+        dropped = {str(x.get_name(cs.a)) for x in Da.get_bases(cs.a).objects(cs.a)} - \
+                  {str(x.get_name(cs.b)) for x in D.get_bases(cs.b).objects(cs.b)}
+        if not dropped:
             continue
-        ok = False
-        for T in D.get_ancestors(cs.b).objects(cs.b):
-            tn = str(T.get_name(cs.b))
-            if (tn, n) not in alters:
-                continue
-            Ta = cs.a.get(T.get_name(cs.b), default=None)
-            if Ta is None:
-                continue
-            for (tn2, n2) in alters:
-                if tn2 != tn or n2 == n:
+        pa = cs.oa[key]
+        ok = True
+        for e in extras:
+            via = False
+            for q in pa.get_bases(cs.a).objects(cs.a):          # the parent's pointer in the old schema
+                src = q.get_source(cs.a)
+                if src is None or str(src.get_name(cs.a)) not in dropped and not any(
+                        str(z.get_name(cs.a)) in dropped for z in Da.get_bases(cs.a).objects(cs.a)
+                        if src in z.get_ancestors(cs.a).objects(cs.a)):
                     continue
-                try:
-                    ra = {x: Ta.getptr(cs.a, sn.UnqualName(x)).get_required(cs.a) for x in (n, n2)}
-                    rb = {x: T.getptr(cs.b, sn.UnqualName(x)).get_required(cs.b) for x in (n, n2)}
-                except Exception:
-                    continue
-                if ra[n] != ra[n2] and ra[n] == rb[n2] and ra[n2] == rb[n]:
-                    ok = True
+                if any(cs.sc._objname(cs.a, z) == e for z in q.get_ancestors(cs.a).objects(cs.a)):
+                    via = True
+            ok = ok and via
         if ok:
             out.add(key)
-    return {'owned-after-ancestor-pointer-swap': out} if out else {}
+            out |= _ptr_desc_keys(cs, p, {'ancestors', 'bases'})
+    return {'pointer-keeps-abstract-base-after-drop-base': out} if out else {}
+
+
+def c_alias_view_stale(cs: Case):
+    """alias-view-pointer-not-refreshed: the differing pointer belongs to the view type of an alias, and the script
+    ALTERs the pointer it derives from (a pointer ancestor in the target) in the underlying type: the change is not
+    propagated to the alias' copy."""
+    out = set()
+    alters = cs.script_alters()
+    for key, f in cs.sdiff.items():
+        if key.split(' ')[0] not in ('Property', 'Link') or not isinstance(f, set) or key not in cs.ob:
+            continue
+        p = cs.ob[key]
+        ow = p.get_source(cs.b)
+        if ow is None or not hasattr(ow, 'get_expr') or ow.get_expr(cs.b) is None:
+            continue
+        for anc in p.get_ancestors(cs.b).objects(cs.b):
+            src = anc.get_source(cs.b)
+            if src is not None and (str(src.get_name(cs.b)), str(anc.get_shortname(cs.b).name)) in alters:
+                out.add(key)
+                break
+    return {'alias-view-pointer-not-refreshed': out} if out else {}
+
+
+def _exclusive_keys(dump, tname):
+    """keys of exclusive constraints on type `tname` or on its pointers"""
+    mod, _, n = tname.rpartition('::')
+    tok = (f'@{mod.replace("::", "|")}|', f'&{mod.replace("::", "|")}||{n}@', f'|{n}@')
+    return {k for k in dump if k.startswith('Constraint ') and 'std|exclusive@' in k
+            and (k.split('@')[1].startswith(f'{mod.replace("::", "|")}|{n}') or f'&{mod.replace("::", "|")}||{n}@' in k)}
+
+
+def c_computed_cardinality(cs: Case):
+    """computed-cardinality-depends-on-exclusive-constraint-order: a computed object (global / computed pointer) and
+    the pointers inheriting from it differ only in `cardinality`, and its expression refers to an object type that
+    carries an exclusive constraint (old schema, target or result).  Cardinality inference of `select … filter .p = x`
+    uses exclusive constraints, so the inferred value depends on whether the constraint already exists when the
+    computed is (re)created: apply_sdl creates the computed before the constraint (Many), a migration onto a schema
+    that has the constraint infers One, and adding / dropping the constraint later does not re-infer."""
+    from edb.schema import objtypes as s_objtypes
+    out = set()
+    for key, f in cs.sdiff.items():
+        if not isinstance(f, set) or not f <= {'cardinality'} or key not in cs.ob:
+            continue
+        o = cs.ob[key]
+        e = o.get_expr(cs.b) if hasattr(o, 'get_expr') else None
+        if e is None or e.refs is None:
+            continue
+        for ref in e.refs.objects(cs.b):
+            if isinstance(ref, s_objtypes.ObjectType):
+                tn = str(ref.get_name(cs.b))
+                if _exclusive_keys(cs.da, tn) | _exclusive_keys(cs.db, tn) | _exclusive_keys(cs.dr, tn):
+                    out.add(key)
+    return {'computed-cardinality-depends-on-exclusive-constraint-order': out} if out else {}
+
+
+def c_link_alias_stale(cs: Case):
+    """computed-link-alias-stale-after-rebase: only computed_link_alias(_is_backward) of a computed link differs; the
+    result still has the OLD schema's value (link L), and the script changes the bases of a type that owns a pointer
+    inheriting from L in the old schema: the alias-ness of the computed link is not recomputed."""
+    out = set()
+    ev = script_events(cs)
+    rebased = {e[1] for e in ev if e[0] in ('drop', 'add')}
+    for key, f in cs.sdiff.items():
+        if not isinstance(f, set) or not f <= {'computed_link_alias', 'computed_link_alias_is_backward'}:
+            continue
+        if key not in cs.da or key not in cs.dr:
+            continue
+        if any(_val(cs.dr[key].get(x)) != _val(cs.da[key].get(x)) for x in f):
+            continue
+        lname = _val(cs.dr[key].get('computed_link_alias')) or _val(cs.db[key].get('computed_link_alias'))
+        L = cs.oa.get(lname) if isinstance(lname, str) else None
+        if L is None:
+            continue
+        for k2, o2 in cs.oa.items():
+            if k2.split(' ')[0] == 'Link' and any(x == L for x in o2.get_ancestors(cs.a).objects(cs.a)):
+                src = o2.get_source(cs.a)
+                if src is not None and str(src.get_name(cs.a)) in rebased:
+                    out.add(key)
+    return {'computed-link-alias-stale-after-rebase': out} if out else {}
+
+
+def c_abstract_base_lost(cs: Case):
+    """pointer-loses-abstract-base-after-add-base: a pointer declared `extending <abstract pointer>` loses that base
+    when, in this step, its owner type (or an ancestor) gains a base that provides a pointer of the same name."""
+    out = set()
+    for key, f in cs.sdiff.items():
+        if key.split(' ')[0] not in ('Property', 'Link') or not isinstance(f, set) or 'bases' not in f:
+            continue
+        if not f <= {'bases', 'ancestors'} or key not in cs.ob or key not in cs.oa:
+            continue
+        rb, bb, ab = _names(cs.dr, key, 'bases'), _names(cs.db, key, 'bases'), _names(cs.da, key, 'bases')
+        missing = [x for x in bb if x not in rb]
+        if not missing or [x for x in rb if x not in bb]:
+            continue
+        ok = True
+        for m in missing:
+            mo = cs.ob.get(m)
+            if mo is None or mo.get_source(cs.b) is not None or m not in ab:
+                ok = False
+        D = cs.ob[key].get_source(cs.b)
+        if ok and D is not None and any(e[0] == 'add' and e[1] in (
+                {str(D.get_name(cs.b))} | {str(x.get_name(cs.b)) for x in D.get_ancestors(cs.b).objects(cs.b)})
+                for e in script_events(cs)):
+            out.add(key)
+            out |= _ptr_desc_keys(cs, cs.ob[key], {'ancestors', 'bases'})
+    return {'pointer-loses-abstract-base-after-add-base': out} if out else {}
 
 
 def c_alias_over_alias(cs: Case):
@@ -332,28 +496,138 @@ def c_errmessage(cs: Case):
         ia, ib = _names(cs.da, key, 'inherited_fields'), _names(cs.db, key, 'inherited_fields')
         if ia is not None and ib is not None and 'errmessage' in ib and 'errmessage' not in ia:
             out.add(key)
+    # constraints inheriting from one of those (same stale message)
+    roots = {cs.sc._objname(cs.b, cs.ob[k]) for k in out if k in cs.ob}
+    for key, f in cs.sdiff.items():
+        if key.startswith('Constraint ') and isinstance(f, set) and f <= {'errmessage', 'inherited_fields'} and key in cs.ob:
+            if any(cs.sc._objname(cs.b, x) in roots for x in cs.ob[key].get_ancestors(cs.b).objects(cs.b)):
+                out.add(key)
     return {'errmessage-removed-empty-script': out} if out else {}
 
 
 def c_alias_scalar(cs: Case):
-    """alias-scalar-misses-inherited-constraint: an alias that is a scalar type (expr set) whose base scalar carries
-    constraints; exactly its `constraints` and the constraint objects on it are missing in the result."""
+    """alias-scalar-inherited-items-order-dependent: an alias that is a scalar type (expr set) whose base scalar carries
+    constraints / inheritable annotations; exactly its `constraints` / `annotations` and the Constraint /
+    AnnotationValue objects on it differ (missing in the result or in the target: whether the alias scalar gets the
+    inherited items depends on the creation order of the alias and of the items)."""
     from edb.schema import scalars as s_scalars
     out = set()
     for key, f in cs.sdiff.items():
-        if not key.startswith('ScalarType ') or f != {'constraints'} or key not in cs.ob:
+        if not key.startswith('ScalarType ') or not isinstance(f, set) or not f <= {'constraints', 'annotations'}:
+            continue
+        if key not in cs.ob:
             continue
         S = cs.ob[key]
         if S.get_expr(cs.b) is None:
             continue
-        if not any(isinstance(x, s_scalars.ScalarType) and len(x.get_constraints(cs.b)) > 0
+        if not any(isinstance(x, s_scalars.ScalarType) and
+                   (len(x.get_constraints(cs.b)) > 0 or len(x.get_annotations(cs.b)) > 0)
                    for x in S.get_bases(cs.b).objects(cs.b)):
             continue
         out.add(key)
+        sname = S.get_name(cs.b)
         for k2, f2 in cs.sdiff.items():
-            if f2 == '+' and k2.startswith('Constraint ') and k2 in cs.ob and cs.ob[k2].get_subject(cs.b) == S:
-                out.add(k2)
-    return {'alias-scalar-misses-inherited-constraint': out} if out else {}
+            if f2 in ('+', '-') and k2.split(' ')[0] in ('Constraint', 'AnnotationValue'):
+                sch, o = cs.obj(k2)
+                subj = o.get_subject(sch) if o is not None else None
+                if subj is not None and subj.get_name(sch) == sname:
+                    out.add(k2)
+    return {'alias-scalar-inherited-items-order-dependent': out} if out else {}
+
+
+def _type_chain_rebased(cs: Case, D):
+    """does the script change the bases of type D or of one of its ancestors (target)?"""
+    names = {str(D.get_name(cs.b))} | {str(x.get_name(cs.b)) for x in D.get_ancestors(cs.b).objects(cs.b)}
+    return any(e[0] in ('drop', 'add') and e[1] in names for e in script_events(cs))
+
+
+def c_inherited_fields(cs: Case):
+    """inherited-fields-stale-after-ancestor-change: ONLY the bookkeeping set `inherited_fields` of a pointer differs
+    (all values equal), and for every field name in the symmetric difference the cause is present in the script:
+    an ancestor pointer gets that very field SET/RESET, or the bases of the owner type (or of one of its ancestors)
+    are changed (`inherited-fields-stale-after-rebase`): descendants' inherited_fields are not recomputed."""
+    out = {}
+    for key, f in cs.sdiff.items():
+        if f != {'inherited_fields'} or key.split(' ')[0] not in ('Property', 'Link') or key not in cs.ob:
+            continue
+        ir, ib = set(_names(cs.dr, key, 'inherited_fields') or []), set(_names(cs.db, key, 'inherited_fields') or [])
+        delta = ir ^ ib
+        p = cs.ob[key]
+        D = p.get_source(cs.b)
+        if not delta or D is None:
+            continue
+        cs.script_alters()
+        by_field = True
+        for fld in delta:
+            hit = False
+            for anc in p.get_ancestors(cs.b).objects(cs.b):
+                src = anc.get_source(cs.b)
+                if src is None:
+                    continue
+                ops = cs._resets.get((str(src.get_name(cs.b)), str(anc.get_shortname(cs.b).name)), set())
+                if any(n == fld for n, _ in ops):
+                    hit = True
+            by_field = by_field and hit
+        if by_field:
+            out.setdefault('inherited-fields-stale-after-ancestor-field-change', set()).add(key)
+        elif hasattr(D, 'get_ancestors') and _type_chain_rebased(cs, D):
+            out.setdefault('inherited-fields-stale-after-rebase', set()).add(key)
+    return out
+
+
+def c_reset_reinherits(cs: Case):
+    """reset-reinherits-before-parent-dropped: the script RESETs field f of an overloaded pointer D.n while the parent
+    pointer still exists (it is dropped / the base removed LATER in the same script), so the reset re-inherits the
+    parent's value, which then stays: result value == the old parent's value, target value differs."""
+    out = set()
+    cs.script_alters()
+    for key, f in cs.sdiff.items():
+        if key.split(' ')[0] not in ('Property', 'Link') or not isinstance(f, set) or key not in cs.ob or key not in cs.oa:
+            continue
+        p, pa = cs.ob[key], cs.oa[key]
+        D = p.get_source(cs.b)
+        if D is None:
+            continue
+        ops = cs._resets.get((str(D.get_name(cs.b)), str(p.get_shortname(cs.b).name)), set())
+        gone = [q for q in pa.get_ancestors(cs.a).objects(cs.a)
+                if q.get_source(cs.a) is not None and cs.sc._objname(cs.a, q) not in
+                {cs.sc._objname(cs.b, z) for z in p.get_ancestors(cs.b).objects(cs.b)}]
+        ok = bool(gone) and bool(f - {'inherited_fields'})
+        for fld in f:
+            if fld == 'inherited_fields':
+                continue
+            if (fld, True) not in ops:
+                ok = False
+                break
+            rv = _val(cs.dr[key][fld])
+            if not any(cs.sc._objname(cs.a, q) in cs.da and _val(cs.da[cs.sc._objname(cs.a, q)].get(fld)) == rv
+                       for q in gone):
+                ok = False
+        if ok:
+            out.add(key)
+    return {'reset-reinherits-before-parent-dropped': out} if out else {}
+
+
+def c_default_removal(cs: Case):
+    """overloaded-default-removal-not-emitted: an overloaded pointer had its own `default` in the old schema, the target
+    inherits the default (`default` in inherited_fields), the result still has the old own default, and the script
+    never touches the default of that pointer."""
+    out = set()
+    cs.script_alters()
+    for key, f in cs.sdiff.items():
+        if key.split(' ')[0] not in ('Property', 'Link') or not isinstance(f, set) or key not in cs.ob or key not in cs.oa:
+            continue
+        if 'default' not in f or not f <= {'default', 'inherited_fields'}:
+            continue
+        p = cs.ob[key]
+        D = p.get_source(cs.b)
+        ops = cs._resets.get((str(D.get_name(cs.b)), str(p.get_shortname(cs.b).name)), set()) if D is not None else set()
+        if any(n == 'default' for n, _ in ops):
+            continue
+        ib, ia = _names(cs.db, key, 'inherited_fields') or [], _names(cs.da, key, 'inherited_fields') or []
+        if 'default' in ib and 'default' not in ia and _val(cs.dr[key]['default']) == _val(cs.da[key]['default']):
+            out.add(key)
+    return {'overloaded-default-removal-not-emitted': out} if out else {}
 
 
 def c_constraint_base(cs: Case):
@@ -401,6 +675,10 @@ def script_events(cs: Case):
                     for b in c.bases:
                         mt = b.maintype
                         ev.append(('drop', tn, f'{mt.module}::{mt.name}'))
+                elif isinstance(c, qlast.AlterAddInherit):
+                    for b in c.bases:
+                        mt = b.maintype
+                        ev.append(('add', tn, f'{mt.module}::{mt.name}'))
                 elif isinstance(c, qlast.Rename):
                     ev.append(('rename', tn, f'{c.new_name.module}::{c.new_name.name}'))
     except Exception:
@@ -487,8 +765,11 @@ def c_finalexpr(cs: Case):
     return {'constraint-finalexpr-rerendered-after-rename': out} if out else {}
 
 
-CLASSIFIERS = (c_bases, c_drop_before_rename, c_annotation_add_base, c_finalexpr, c_computed_to_stored, c_owned,
-               c_alias_over_alias, c_errmessage, c_alias_scalar, c_constraint_base)
+#: most specific first: a differing object is attributed to the FIRST predicate that explains it
+CLASSIFIERS = (c_bases, c_drop_before_rename, c_annotation_add_base, c_finalexpr, c_errmessage, c_alias_scalar,
+               c_constraint_base, c_computed_cardinality, c_link_alias_stale, c_owned, c_abstract_base_kept,
+               c_abstract_base_lost, c_reset_reinherits,
+               c_default_removal, c_computed_status, c_alias_over_alias, c_alias_view_stale, c_inherited_fields)
 
 
 LAST_ERROR = [None]
@@ -505,9 +786,10 @@ def classify(sc, a, b, r, script, da, db, dr):
         explained, causes = set(), set()
         for fn in CLASSIFIERS:
             for cause, keys in fn(cs).items():
-                if keys:
+                new = (keys & set(cs.sdiff)) - explained
+                if new:
                     causes.add(cause)
-                    explained |= keys
+                    explained |= new
         if causes and set(cs.sdiff) <= explained:
             return sorted(causes)
     except Exception as e:
